@@ -425,6 +425,8 @@ def integro_case(S, M, outs, kind, has_p=True, has_f=True, n=2, nint=2):
         def impl(**a):
             e = dict(a)
             e["du_dx"] = tp.utils.grad(a["u"], a["x"])
+            if "t" in a:  # the output at the integral points still depends on the row's own coordinates
+                e["dui_dt"] = tp.utils.grad(a["u_integral"], a["t"])
             integral = (a["u_integral"] * a["x_integral"]).mean(dim=1, keepdim=True)
             r0 = e["du_dx"] + a["u"] - integral
             if has_f:
@@ -443,7 +445,7 @@ def integro_case(S, M, outs, kind, has_p=True, has_f=True, n=2, nint=2):
         produced = recorder.produced[0 if static else -1]
         rows = K.rows_by_name(_rows(env, produced), produced.space)
         irows = K.rows_by_name(_rows(env, irec.produced[-1]), irec.produced[-1].space)
-        wa = {k: [] for k in sig + ["du_dx"]}
+        wa = {k: [] for k in sig + ["du_dx"] + (["dui_dt"] if "t" in S else [])}
         resid = []
         wa["x_integral"] = [[r["x"] for r in irows]]
         for co in rows:
@@ -454,6 +456,9 @@ def integro_case(S, M, outs, kind, has_p=True, has_f=True, n=2, nint=2):
                 val[o_] = y[o_]
                 val[o_ + "_integral"] = [yy[o_] for yy in yi]
             val["du_dx"] = orc.deriv(co, "u", 0, "x")
+            if "t" in S:
+                dts = [orc.deriv(dict(co, x=ir["x"]), "u", 0, "t") for ir in irows]
+                val["dui_dt"] = [sum(d_[c] for d_ in dts) for c in range(len(dts[0]))]
             if has_f:
                 val["f"] = [f.value(co)]
             for k in wa:
